@@ -576,6 +576,7 @@ func (st *tunnelServerStream) readMsgLocked() (data []byte, ok bool, err error) 
 			return nil, true, err
 		}
 
+		verifYield("server.read.beforeDequeue")
 		in, ok := st.receiver.dequeue()
 		if !ok {
 			if halfClosedErr := st.halfClosed.Load(); halfClosedErr != nil {
